@@ -955,6 +955,15 @@ func checkC05(c *core.Ctx) {
 					if math.IsInf(exp, 0) || math.IsNaN(exp) {
 						continue // the defined statistic itself is not finite
 					}
+					if md.name == "hugecancel" && k != "Max" && k != "Min" {
+						// +-1.2e308 pairs: the small part survives only in some summation orders (adding small
+						// values to a huge partial sum absorbs them) - any order is correct; what is demanded
+						// is a FINITE result within one unit of the huge terms of the defined one
+						if math.IsNaN(got) || math.IsInf(got, 0) || math.Abs(got-exp) > 1e293 {
+							return core.Fail("%s() of %v = %v, expected about %v (finite)", k, shortT(x), got, exp)
+						}
+						continue
+					}
 					if tol := statTol(k, smallPart(md.name, x.V), exp); math.IsNaN(got) || math.IsInf(got, 0) || math.Abs(got-exp) > tol {
 						return core.Fail("%s() of %v = %v, expected %v (tolerance %.3g)", k, shortT(x), got, exp, tol)
 					}
@@ -983,6 +992,12 @@ func checkC05(c *core.Ctx) {
 								buf[i] = x.V[o]
 							}
 							if math.IsInf(exp.V[ro], 0) || math.IsNaN(exp.V[ro]) {
+								return
+							}
+							if md.name == "hugecancel" && ref.StatKind(k) != "Max" && ref.StatKind(k) != "Min" {
+								if bad == "" && (math.IsNaN(g.V[ro]) || math.IsInf(g.V[ro], 0) || math.Abs(g.V[ro]-exp.V[ro]) > 1e293) {
+									bad = fmt.Sprintf("fibre %d %v: got %v, expected about %v (finite)", ro, buf, g.V[ro], exp.V[ro])
+								}
 								return
 							}
 							if tol := statTol(ref.StatKind(k), smallPart(md.name, buf), exp.V[ro]); bad == "" && (math.IsNaN(g.V[ro]) || math.IsInf(g.V[ro], 0) || math.Abs(g.V[ro]-exp.V[ro]) > tol) {
